@@ -834,3 +834,91 @@ Proof.
   - destruct pre; discriminate.
   - apply brace_chunk_word; [exact Hpw| |exact Hqw]. apply forallb_app_intro; assumption.
 Qed.
+
+(* ------------------------------------------------------------------ examples (non-vacuity) *)
+
+From Coq Require Import String.
+Definition bs (s : String.string) : list byte := String.list_byte_of_string s.
+
+(* a state with hostile values *)
+Definition ex_state : ts_env :=
+  cmd_env [bs "A=x 'y' $B #z"%string ++ [CR]; bs "B=again"%string; bs "a-b=dash dash"%string; bs "R=a.b*c"%string]
+          (setup_env [bs "WORK=/w"%string; bs "$=$"%string]).
+
+Example parse_quote_words_ex :
+  let ws := [bs "it's"%string; []; bs "#x $A ${B}"%string; bs "a  b"%string ++ [TAB; CR]; bs "''"%string] in
+  join_sp (map sq ws) = bs "'it''s' '' '#x $A ${B}' 'a  b"%string ++ [TAB; CR] ++ bs "' ''''''"%string
+  /\ ts_parse ex_state (join_sp (map sq ws)) = Some ws.
+Proof. vm_compute. split; reflexivity. Qed.
+
+Example parse_plain_split_ex :
+  let lead := [SP] in
+  let w0 := bs "args"%string in
+  let rest := [([TAB; SP], bs "a=b"%string); ([TAB], bs "x.y"%string); ([SP; SP; SP], bs "{z}"%string)] in
+  let trail := [SP; TAB] in
+  blank_run lead /\ plain_word w0 /\
+  Forall (fun p => fst p <> [] /\ blank_run (fst p) /\ plain_word (snd p)) rest /\ blank_run trail /\
+  ts_parse ex_state (lead ++ w0 ++ join_runs rest ++ trail) = Some (w0 :: map snd rest).
+Proof.
+  cbv zeta. split; [reflexivity|]. split; [split; [discriminate|reflexivity]|].
+  split; [|split; [reflexivity|vm_compute; reflexivity]].
+  repeat constructor; try discriminate; reflexivity.
+Qed.
+
+(* the characters the property names: words are split at spaces and tabs, # starts a comment,
+   the quote is the single quote, expansion starts at $, the regexp suffix is @R *)
+Theorem syntax_characters :
+  blank_byte SP = true /\ blank_byte TAB = true /\
+  is_comment x23 = true /\ ts_quote = x27 /\ dollar = x24 /\ lbrace = x7b /\ rbrace = x7d /\
+  ts_regex_suffix = [x40; x52] /\ ts_env_sep = x3d /\ pwd_key = [x50; x57; x44].
+Proof. repeat split. Qed.
+
+Example parse_comment_ex :
+  let l := bs "args a 'b#c' d"%string in
+  let h := x23 in
+  is_comment h = true /\ in_quote_after l false = false /\
+  ts_parse ex_state (l ++ h :: bs " rest 'unbalanced"%string) = Some [bs "args"%string; bs "a"%string; bs "b#c"%string; bs "d"%string]
+  /\ ts_parse ex_state (bs "args a#glued"%string) = Some [bs "args"%string; bs "a"%string].
+Proof. vm_compute. repeat split. Qed.
+
+(* inside quotes (odd number of quotes before it) the same character is ordinary *)
+Example quoted_hash_ex :
+  in_quote_after (bs "args 'a"%string) false = true /\
+  ts_parse ex_state (bs "args 'a#b'"%string) = Some [bs "args"%string; bs "a#b"%string].
+Proof. vm_compute. split; reflexivity. Qed.
+
+Example parse_expand_once_ex :
+  let v := bs "x 'y' $B #z"%string ++ [CR] in
+  valid_name (bs "A"%string) /\ getenv ex_state (bs "A"%string) = v /\
+  plain_word (bs "c"%string) /\ plain_chunk (bs "pre-"%string) /\ plain_chunk (bs ".post"%string) /\
+  no_alnum_head (bs ".post"%string) /\
+  ts_parse ex_state (bs "c $A"%string) = Some [bs "c"%string; v] /\
+  ts_parse ex_state (bs "c pre-$A.post"%string) = Some [bs "c"%string; bs "pre-"%string ++ v ++ bs ".post"%string].
+Proof.
+  cbv zeta. split; [split; [discriminate|split; reflexivity]|].
+  split; [reflexivity|]. split; [split; [discriminate|reflexivity]|].
+  repeat split.
+Qed.
+
+Example parse_expand_once_brace_ex :
+  let k := bs "a-b"%string in
+  brace_word k /\ strip_suffix ts_regex_suffix k = None /\
+  ts_parse ex_state (bs "c x${a-b}y"%string) = Some [bs "c"%string; bs "xdash dashy"%string] /\
+  ts_parse ex_state (bs "c ${A}"%string) = Some [bs "c"%string; bs "x 'y' $B #z"%string ++ [CR]].
+Proof.
+  cbv zeta. split; [split; [split; [discriminate|reflexivity]|reflexivity]|].
+  repeat split.
+Qed.
+
+Example parse_expand_regex_ex :
+  ts_parse ex_state (bs "c ^${R@R}$"%string) = Some [bs "c"%string; bs "^a\.b\*c$"%string].
+Proof. reflexivity. Qed.
+
+(* names the $NAME form does not cover: a leading digit is a one-character special name *)
+Example digit_name_ex :
+  ts_parse (cmd_env [bs "1a=v"%string; bs "1=one"%string] (setup_env [])) (bs "c $1a ${1a}"%string)
+  = Some [bs "c"%string; bs "onea"%string; bs "v"%string].
+Proof. reflexivity. Qed.
+
+Example unterminated_ex : ts_parse ex_state (bs "args 'abc"%string) = None.
+Proof. reflexivity. Qed.
